@@ -170,6 +170,26 @@ def chk_recipe(inp):
         tag = "C20-global-rng" if name == "optimal_grouping!" else None
         out = {"message": "%s called twice with equal arguments returned different results (hidden state)" % name, "observed": "differs", "expected": "equal"}
         return out
+    # the caller refills the SAME buffers with new contents (a loop that reuses its frame / reference arrays) and calls again: the answer
+    # must be what fresh arrays with those contents give (no result remembered by object identity)
+    args3, kw3 = mk()
+    arrs = [a for a in list(args3) + list(kw3.values()) if isinstance(a, numpy.ndarray) and a.size and a.flags.writeable and a.dtype.kind == "f"]
+    if arrs and name != "optimal_grouping":
+        try:
+            numpy.random.seed(1)
+            f(*args3, **kw3)
+            for a in arrs:
+                a[...] = a[(slice(None, None, -1),) * a.ndim] * 0.75 + 0.125 * a       # new finite positive contents, same object
+            fresh_args, fresh_kw = copy.deepcopy((args3, kw3))
+            numpy.random.seed(1)
+            r_same = f(*args3, **kw3)
+            numpy.random.seed(1)
+            r_fresh = f(*fresh_args, **fresh_kw)
+        except Exception:
+            r_same = r_fresh = None          # contents the function refuses: nothing to compare
+        if r_same is not None and not same(r_same, r_fresh):
+            return {"message": "%s: buffers refilled in place and passed again give a different result than fresh arrays with the same contents (a result remembered by object identity)" % name,
+                    "observed": "differs", "expected": "equal"}
     if name == "optimal_grouping":
         # hidden state: result must not depend on NumPy's global RandomState (listed finding when it does)
         numpy.random.seed(12345)
